@@ -106,7 +106,7 @@ func (e *Engine) allowedPkg(fn *ssa.Function) bool {
 		return true
 	}
 	switch path {
-	case "context", "bytes", "errors", "sort", "strings", "io", "unicode/utf8", "internal/bytealg", "time", "sync/atomic", "internal/godebug":
+	case "context", "bytes", "errors", "sort", "strings", "io", "unicode/utf8", "internal/bytealg", "time", "sync/atomic", "internal/godebug", "fmt":
 		return true
 	}
 	return false
